@@ -641,7 +641,7 @@ impl Session {
                 });
                 node.add_dependency(&ctl);
                 ctx.push_node(id, Some(node.watch()));
-                ctx.push_node(id + 1, None);
+                ctx.push_node(id + 1, Some(ctl));
             }
             "bind" => {
                 let id = ctx.next_id();
